@@ -546,7 +546,7 @@ class Analyzer:
             if inner.get("kind") == "DeclRefExpr" and inner.get("ref", {}).get("kind") in ("VarDecl", "ParmVarDecl"):
                 did = inner["ref"].get("id")
                 fr.names.setdefault(did, inner["ref"].get("name"))
-                if did not in fr.volatile:
+                if did not in fr.volatile and is_pure_obj(inner["ref"].get("ty", "")):
                     return babs_lit(fr.vkey(did) + ":nonzero")
             if inner.get("kind") in ("IntegerLiteral",):
                 return B_FALSE if str(inner.get("value")) == "0" else B_TRUE
@@ -791,21 +791,41 @@ class Analyzer:
                 val = ('bool', (f_and(own[0], val[1][0]), f_and(own[1], val[1][1])))
             fr.bind[did] = val
 
+    def eval_cond(self, n, fr, pc, out):
+        """evaluate a condition in evaluation order: visits calls / sites / writes AND returns (T, F) with every read taken at
+        the version that is current when it is evaluated (`f(&x) && !x` reads the x written by f)"""
+        if not isinstance(n, dict):
+            return B_ANY
+        k = n.get("kind")
+        if k in ("ParenExpr", "ExprWithCleanups", "ConstantExpr") and kids(n):
+            return self.eval_cond(kids(n)[0], fr, pc, out)
+        if k == "ImplicitCastExpr" and n.get("castKind") in ("NoOp", "LValueToRValue") and kids(n) and is_bool(n.get("ty", "")) and \
+                kids(n)[0].get("kind") != "DeclRefExpr" and kids(n)[0].get("kind") != "MemberExpr":
+            return self.eval_cond(kids(n)[0], fr, pc, out)
+        if k == "UnaryOperator" and n.get("opcode") == "!" and kids(n):
+            return b_not(self.eval_cond(kids(n)[0], fr, pc, out))
+        if k == "BinaryOperator" and n.get("opcode") in ("&&", "||"):
+            a, b = kids(n)
+            ab = self.eval_cond(a, fr, pc, out)
+            if n["opcode"] == "&&":
+                bb = self.eval_cond(b, fr, f_and(pc, pcify(ab[0])), out)
+                return b_and(ab, bb)
+            bb = self.eval_cond(b, fr, f_and(pc, pcify(ab[1])), out)
+            return b_or(ab, bb)
+        self.visit_expr(n, fr, pc, out)
+        return self.bool_abs(n, fr)
+
     def visit_expr(self, n, fr, pc, out):
         """find calls / sites / assignments inside an expression; pc = facts valid when the expression is evaluated"""
         if not isinstance(n, dict) or pc == FF:
             return
         k = n.get("kind")
         if k == "BinaryOperator" and n.get("opcode") in ("&&", "||"):
-            a, b = kids(n)
-            ab = B_ANY if self.assigned_vars(a) else self.bool_abs(a, fr)
-            self.visit_expr(a, fr, pc, out)
-            self.visit_expr(b, fr, f_and(pc, pcify(ab[0] if n["opcode"] == "&&" else ab[1])), out)
+            self.eval_cond(n, fr, pc, out)
             return
         if k == "ConditionalOperator":
             c, a, b = kids(n)
-            cb = B_ANY if self.assigned_vars(c) else self.bool_abs(c, fr)
-            self.visit_expr(c, fr, pc, out)
+            cb = self.eval_cond(c, fr, pc, out)
             self.visit_expr(a, fr, f_and(pc, pcify(cb[0])), out)
             self.visit_expr(b, fr, f_and(pc, pcify(cb[1])), out)
             return
@@ -1120,11 +1140,7 @@ class Analyzer:
         cond = inner[idx]
         then = inner[idx + 1] if idx + 1 < len(inner) else None
         els = inner[idx + 2] if s.get("hasElse") and idx + 2 < len(inner) else None
-        if self.assigned_vars(cond):
-            cb = B_ANY
-        else:
-            cb = self.bool_abs(cond, fr)
-        self.visit_expr(cond, fr, pc, out)
+        cb = self.eval_cond(cond, fr, pc, out)
         bind0, ver0 = dict(fr.bind), dict(fr.ver)
         pt, pe = pcify(cb[0]), pcify(cb[1])
         if then is not None:
